@@ -45,9 +45,9 @@ func concInputs(c *genCtx) []concInput {
 		add("doc", d)
 	}
 	// wide containers at the top level and nested (size hints, growth policies and anything else keyed on the
-	// number of members: 63 / 64 / 65, 255..257, 1000), several times each so that they meet in every window
-	for rep := 0; rep < 3; rep++ {
-		for _, n := range []int{63, 64, 65, 255, 256, 257, 1000} {
+	// number of members: 63 / 64 / 65 / 130), twice each so that they meet in every window
+	for rep := 0; rep < 2; rep++ {
+		for _, n := range []int{63, 64, 65, 130} { // (TLC's tree comparison is quadratic in the width: 1000 members took minutes)
 			add("doc", arrWithElems(n))
 			add("doc", objWithKeys(n))
 			add("doc", append(append([]byte(`{"w":`), arrWithElems(n)...), `,"v":[{}]}`...))
